@@ -1,7 +1,8 @@
 PROP = dict(
     modules=["Shangrla.Props.C09", "Shangrla.Props.RiskLimit", "Shangrla.Props.RiskLimitStyle",
              "Shangrla.Props.RiskLimitPlurality", "Shangrla.Props.RiskLimitComparison", "Shangrla.Props.RiskLimitIID", "Shangrla.Props.RiskLimitIRVComparison",
-             "Shangrla.Props.RiskLimitIRV", "Shangrla.Props.RiskLimitComparisonFull"],
+             "Shangrla.Props.RiskLimitIRV", "Shangrla.Props.RiskLimitComparisonFull",
+             "Shangrla.Props.RiskLimitComparisonOutcome"],
     theorems=["Shangrla.C09.pvalues_are_tests", "Shangrla.C09.pvalues_are_tests_pos", "Shangrla.C09.contest_max",
               "Shangrla.C09.audit_max", "Shangrla.C09.audit_max_nan_iff", "Shangrla.C09.audit_max_largest",
               "Shangrla.C09.proved_sticky", "Shangrla.C09.proved_of_le", "Shangrla.C09.dicts_mirror",
@@ -40,7 +41,15 @@ PROP = dict(
               # with C03/C06 on the literal overstatement model: comparison and ONEAudit audits with pools, phantoms
               # and the style filter (also registered under C03)
               "Shangrla.RiskLimit.sample_data_model", "Shangrla.RiskLimit.comparison_full_risk_limit",
-              "Shangrla.RiskLimit.example_comparison_full_exact"],
+              "Shangrla.RiskLimit.example_comparison_full_exact",
+              # with C02 on top of it: a wrong reported outcome of a plurality / super-majority contest on the manual
+              # records => risk limit of the comparison / ONEAudit audit (also registered under C02)
+              "Shangrla.RiskLimit.comparison_full_risk_limit_cards",
+              "Shangrla.RiskLimit.plurality_comparison_null", "Shangrla.RiskLimit.supermajority_comparison_null",
+              "Shangrla.RiskLimit.plurality_comparison_risk_limit", "Shangrla.RiskLimit.supermajority_comparison_risk_limit",
+              "Shangrla.RiskLimit.plurality_comparison_risk_limit_zip",
+              "Shangrla.RiskLimit.supermajority_comparison_risk_limit_zip",
+              "Shangrla.RiskLimit.example_comparison_outcome_exact"],
     groups={"status": (1200, 12000), "auditrisk": (60, 600)},
     design_ref="DESIGN.md section 5, C09",
     assumptions=["the statistical test and the data extraction (asn.test.test, Assertion.mvrs_to_data) are parameters of "
